@@ -18,7 +18,12 @@ THEOREMS = ["C01_fold_sound", "C01_fold_sound_root", "C01_fold_accepts", "C01_fo
             "C01_analyzeTrack_budget", "C01_optimize_terminates_partial",
             # repair of D2: a fold takes at most 255 repetitions; every LOOP_END the optimiser inserts has a count in
             # 2..255; a pass / a whole run keeps every loop count of the song in the documented domain 0..255
-            "C01_fold_count_le_255", "C01_pass_counts", "optimize_counts", "C01_optimize_counts_le_255"]
+            "C01_fold_count_le_255", "C01_pass_counts", "optimize_counts", "C01_optimize_counts_le_255",
+            # repair of D18: the depth side of the loop fold.  One frame of headroom around the period is what the fold
+            # needs (spec level); find_match's stack test covers the whole period / the source phrase of a subroutine;
+            # the loop branch of apply_match keeps the song valid given that the stack analysis is right about the period
+            "C01_fold_headroom", "C01_fold0_headroom", "C01_fold_budget_covers_period", "C01_sub_budget_covers_source",
+            "C01_src_stack_le_limit", "C01_fold_keeps_depth_partial", "C01_loop_pass_keeps_valid_partial"]
 LEVEL = "proof"
 STREAM = "opt.final"
 CHUNK = 150
@@ -33,8 +38,15 @@ LEVEL_TEXT = ("see lean/Ctrmml/Properties/C01.lean: rewrite soundness over Spec/
               "initialSubId + number of events < 32767); loop counts (repair of D2, repo 6f86090: apply_match folds at most max_loop_count = 255 repetitions, the rest stays for the next pass; "
               "the capped fold is the fold without remainder with k = 254, LoopWindow.cap): C01_fold_count_le_255 (every LOOP_END the loop branch inserts has a count in 2..255 and every other "
               "event of the new track is an old event, LOOP_START or LOOP_BREAK), C01_pass_counts / C01_optimize_counts_le_255 (a pass / a whole run keeps every loop count of the song in the "
-              "documented domain 0..255); NOT proved: termination without the bound on the number of events (sub_id wrap, C01_optimize_terminates_statement) and that the stack "
-              "analysis keeps the result within the depth limit (D18); every generated valid song is run "
+              "documented domain 0..255); depth (repair of D18, repo 546f0ab: find_match applies its stack test to the source phrase too): C01_fold_headroom / "
+              "C01_fold0_headroom (spec level: if the song validates with the period A0 A1 wrapped in one more loop, the folded song validates - one frame of headroom around the "
+              "period is all a fold needs; exact-depth congruence Proofs/RewriteDepth), C01_fold_budget_covers_period (every event of [position, loopPosition), the part the break "
+              "skips included, passed stack_depth < max_loop_stack), C01_sub_budget_covers_source (every event of the phrase a subroutine is made from passed stack_depth < "
+              "max_src_stack = the validator's 10 frames, C01_src_stack_le_limit), C01_fold_keeps_depth_partial / C01_loop_pass_keeps_valid_partial (the loop branch of apply_match / "
+              "a whole loop-fold pass keeps every track valid - no validator run needed - under the extra hypothesis StackSoundAt: the stack analysis is right that the period has "
+              "one frame of headroom; the hypothesis cannot be dropped: Ex2.D28_witness, Ex2.stackSound_needed); NOT proved: termination without the bound on the number of events "
+              "(sub_id wrap, C01_optimize_terminates_statement), that analyze_stack's lists are sound (C01_fold_keeps_depth_full_statement; false as it stands: finding D28) and "
+              "the depth side of subroutine extraction beyond the budget test; every generated valid song is run "
               "through the REAL optimiser and the spec expander (perf) compares, for every original track, the played events with durations, the total length and the loop-point time "
               "before and after, and requires normal termination (per-case timeout), a validating result and loop counts within 0..255 whenever the input's are, for aggressiveness "
               "thresholds 0..10.")
@@ -42,12 +54,15 @@ LEVEL_NOTE = ("Trusted: Lean kernel; Spec/Tree + Spec/Expand (meaning of loops/b
               "optimiser is tied to src/optimizer.cpp by the differential stream (same song and passes on every generated case); hypotheses of C01_optimize_preserves: distinct sorted track ids "
               "< 32767, no explicit END event, LOOP_BREAKs without duration, tracks < 32767 events, subroutine ids stay below 32768; of C01_optimize_terminates_partial additionally: min_score >= 0 "
               "(for a negative threshold the pass loop does not end: a pass with score 0 changes nothing), int16_t call params (the model keeps params as unbounded Int: "
-              "Ex2.analyzeStack_fuel_artefact), initialSubId + events < 32767.  That an intermediate song exceeds the depth limit (D18) is decided per case by the oracle.  "
+              "Ex2.analyzeStack_fuel_artefact), initialSubId + events < 32767.  That no intermediate song exceeds the depth limit is a theorem for loop-fold passes only under StackSoundAt "
+              "(soundness of analyze_stack's lists for the folded period: not proved, finding D28 is a counterexample with unused macro tracks) and is otherwise decided per case by "
+              "the oracle: every pass of every generated case must leave a validating song (family d18-budget walks the stack budget on both sides of its limits).  "
               "The list-based model is quartic in the length of a run of equal phrases: the 1000-repetition cases of the D2 family are sent as `optx` (same harness handler), the model does "
               "not answer them and only the spec oracle judges the real optimiser there (reported in a note).")
 RULE = ("motif-repetition songs (A^k, A^k A[0..j), motifs with nested loops, breaks (also two breaks in one loop) and calls, loop point at any depth-0 position, 1..4 channel tracks sharing "
         "motifs, tracks > 15, existing tracks >= 15000 (called or not)) + straddle family (a phrase and its repetition on the two sides of a break, loop bracket, loop point or call) "
-        "x min_score in 0..10 + D2 family (a phrase repeated 254..257, 300, 509..511, 1000 times back to back, with and without remainder, inside an outer loop, in two tracks) + all tracks over a 4-symbol alphabet up to length 6 (8 thorough); non-trivial = optimiser changed the song; distinct by request")
+        "x min_score in 0..10 + D18 family (phrase, material that nests j loops - directly, in a called subroutine, or with the folded track called inside ctx loops - , phrase again, "
+        "for every ctx + j the 10-frame limit allows; a phrase inside j loops and again outside / in another track / called) + D2 family (a phrase repeated 254..257, 300, 509..511, 1000 times back to back, with and without remainder, inside an outer loop, in two tracks) + all tracks over a 4-symbol alphabet up to length 6 (8 thorough); non-trivial = optimiser changed the song; distinct by request")
 EXPLANATION = "spec expander on the real optimiser's output vs on its input"
 ASSUMPTIONS = ["input songs validate (checked by the spec before judging)"]
 
@@ -58,8 +73,12 @@ CORPUS = [
     "opt 10 T0:" + ",".join(["2.48.6.0"] * 300),
     # D3: existing track 15000
     "opt 10 T0:" + ",".join(["2.%d.24.0" % n for n in (48, 50, 52, 53, 55, 57, 59)] + ["13.1.0.0"] + ["2.%d.24.0" % n for n in (48, 50, 52, 53, 55, 57, 59)] + ["13.2.0.0"] + ["2.%d.24.0" % n for n in (48, 50, 52, 53, 55, 57, 59)] + ["13.3.0.0", "8.15000.0.0"]) + " T15000:2.48.24.0",
-    # D18: fold wraps unexamined deep nesting
+    # D18 (repaired): the fold would wrap the ten-deep nest between the phrase and its repetition; the whole family is `d18_cases`
     "opt 10 T0:2.48.12.0,2.50.12.0,2.52.12.0," + ",".join(["4.0.0.0"] * 10) + ",2.55.12.0," + ",".join(["6.2.0.0"] * 10) + ",2.48.12.0,2.50.12.0,2.52.12.0",
+    # D18, subroutine half (repaired): the source phrase `c [d]2 e f` sits inside nine loops, its copy outside
+    "opt 0 T0:" + ",".join(["4.0.0.0"] * 9) + ",2.48.12.0,4.0.0.0,2.50.12.0,6.2.0.0,2.52.12.0,2.53.12.0," + ",".join(["6.2.0.0"] * 9) + ",2.48.12.0,4.0.0.0,2.50.12.0,6.2.0.0,2.52.12.0,2.53.12.0",
+    # D28 (known): ten unused macro tracks calling each other downwards; the stack analysis takes *30 to be one frame deep
+    "opt 0 T20:8.30.0.0 " + " ".join("T%d:8.%d.0.0" % (i, i - 1) for i in range(21, 30)) + " T30:" + ",".join(["2.48.12.0", "2.50.12.0", "2.52.12.0"] * 3),
     "opt 10 T0:2.1.1.0,2.2.1.0,2.3.1.0,2.1.1.0,2.2.1.0,2.3.1.0,2.1.1.0,2.2.1.0,2.3.1.0,2.1.1.0,2.2.1.0",
     "opt 0 T0:2.1.1.0,2.2.1.0,2.1.1.0,2.2.1.0,2.1.1.0 T1:2.1.1.0,2.2.1.0,2.1.1.0,2.2.1.0",
 ]
@@ -198,6 +217,50 @@ def d2_cases(T, tier):
     return out
 
 
+def d18_cases(T, tier):
+    """Repair of D18: the stack budget of the SOURCE phrase.  (a) loop folds `A R A`: the part R between the phrase and its
+    repetition ends up inside the new loop; R nests j loops (directly, or inside a subroutine it calls), the whole sits in
+    `ctx` outer loops, every combination the 10-frame limit allows: the budget (`max_loop_stack` = 6 units, 2 per loop, 1 per
+    call) admits the fold up to ctx + j = 2.  (b) subroutine extractions: the phrase inside j loops (the source) and again
+    outside / in another track: `max_src_stack` = 10 admits the source up to j = 4.  Every case must return normally with a
+    validating result; model and implementation must agree on where the line is."""
+    N = lambda k, d=12: (T["NOTE"], 36 + k, d, 0)
+    LS = (T["LOOP_START"], 0, 0, 0)
+    LE = lambda c=2: (T["LOOP_END"], c, 0, 0)
+    J = lambda t: (T["JUMP"], t, 0, 0)
+    quick = tier == "quick"
+    A = [N(0), N(1), N(2)]
+    def case(name, song, score):
+        return Case("opt %d %s" % (score, songgen.render(song)), ("d18", name), "d18-budget")
+    for ctx in ([0, 1, 3] if quick else range(0, 5)):
+        for j in range(0, 11 - ctx):
+            if quick and j not in (0, 1, 2, 3, 5, 10 - ctx):
+                continue
+            nest = [LS] * j + [N(7)] + [LE()] * j
+            wrap = lambda evs: [LS] * ctx + evs + [LE()] * ctx
+            for score in ((0, 10) if not quick else (0,)):
+                yield case("loop-nest", {0: wrap(A + nest + A)}, score)
+                yield case("loop-nest-AAA0", {0: wrap(A + nest + A + A + A[:2])}, score)
+                if ctx + j + 1 <= 10:
+                    # the nest inside a subroutine that R calls: usage 1 + 2j at the call
+                    yield case("loop-call", {0: wrap(A + [J(100)] + A), 100: nest}, score)
+                    # the folded track is itself called from inside ctx loops: base usage
+                    yield case("loop-base", {0: [LS] * ctx + [J(100)] + [LE()] * ctx, 100: A + nest + A}, score)
+    P = [N(0), N(1), N(2), N(3), N(4)]
+    PL = [N(0), LS, N(1), LE(), N(2), N(3), N(4)]
+    for j in (range(0, 11) if not quick else (0, 2, 4, 5, 7, 9, 10)):
+        for ph, lim in ((P, 10), (PL, 9)):
+            if j > lim:
+                continue
+            deep = [LS] * j + ph + [LE()] * j
+            yield case("sub-src-deep", {0: deep + ph}, 0)
+            yield case("sub-src-deep-3", {0: deep + ph + [N(9)] + ph}, 0)
+            yield case("sub-dst-deep", {0: ph + deep}, 0)
+            yield case("sub-cross", {0: deep, 1: [N(9)] + ph + [N(8)] + ph}, 0)
+            if j + 1 <= lim:
+                yield case("sub-base", {0: [LS] * j + [J(100)] + [LE()] * j, 1: ph + [N(9)], 100: ph + [N(8)] + ph}, 0)
+
+
 def has_break2(flat, T):
     """two LOOP_BREAKs directly in one loop body (the `[a / b / c]2` shape)"""
     stack = []
@@ -245,6 +308,8 @@ def _cases(rng, tier):
     # break, a loop bracket, the loop point or a call, in every loop context that keeps the song
     # valid.  The optimiser must not fold or extract across the marker.
     for c in straddle_cases(T, tier):
+        yield c
+    for c in d18_cases(T, tier):
         yield c
     n = 500 if tier == "quick" else 8000
     scores = list(range(11))
@@ -310,12 +375,30 @@ def judge_notes(cases, impl, judge):
         yield "%d cases above the size bound of the optimiser model: decided by the spec oracle on the implementation's answer only" % SIZE_LIMIT["n"]
 
 
+def unused_macro_chain(req):
+    """the shape of finding D28: a macro track (id > 15) that no channel track reaches calls another such track with a
+    smaller id (analyze_stack has already marked the callee unused, base_usage = 100, and does not analyse it again)"""
+    T = songgen.event_types()
+    song = songgen.parse_request_song(req)
+    calls = {t: {e[1] & 0xffff for e in evs if e[0] == T["JUMP"]} for t, evs in song.items()}
+    used, todo = set(), [t for t in song if t <= 15]
+    while todo:
+        t = todo.pop()
+        if t in used or t not in song:
+            continue
+        used.add(t)
+        todo.extend(calls[t])
+    return any(t > 15 and t not in used and any(15 < c < t and c not in used and c in song for c in calls[t]) for t in song)
+
+
 def finding_key(case, impl, judge):
     if impl.startswith("crash") or impl == "timeout" or impl.startswith("uncaught"):
         m = re.search(r"(\w+\.cpp:\d+)", impl)
         return "crash:" + (m.group(1) if m else impl.split(" ")[0])
     m = re.search(r"result=(threw|exc):(\S+)", impl)
     if m:
+        if m.group(2).startswith("stack_overflow") and unused_macro_chain(case.req):
+            return "d28:unused-macro-chain"
         return "throws:" + m.group(2)[:40]
     if "performance changed" in judge: return "performance-changed"
     if "length changed" in judge: return "length-changed"
